@@ -106,6 +106,7 @@ Outcome paths(Json const& plan)
     using P3 = gil::gray8_pixel_t; using P4 = gil::rgb8_pixel_t; using P5 = gil::rgba8_pixel_t;
     PathsCfg cfg;
     cfg.seeks = true;
+    cfg.scan_type_readable = true; // targa/detail/supported_types.hpp: bgr8 / bgra8 are read natively
     // targa/detail/scanline_read.hpp: "scanline reader cannot read this targa image type." (RLE) and
     // "scanline reader cannot read targa files which have screen origin bit set."
     cfg.scan_refused = v.find("rle") != std::string::npos || v.find("top") != std::string::npos;
